@@ -36,6 +36,9 @@ type RefMsg struct {
 	// DeclLen overrides the declared message length when >= 0 and Override is set.
 	Override bool
 	DeclLen  int
+	// TrimPad drops the padding of the last AVP and declares the unpadded length
+	// (accepted by the reader; header length then differs from the padded size).
+	TrimPad bool
 }
 
 func put24(b []byte, v int) { b[0], b[1], b[2] = byte(v>>16), byte(v>>8), byte(v) }
@@ -75,6 +78,22 @@ func (m RefMsg) Bytes() []byte {
 	var body []byte
 	for _, a := range m.AVPs {
 		body = append(body, a.Bytes()...)
+	}
+	if m.TrimPad && len(m.AVPs) > 0 {
+		last := m.AVPs[len(m.AVPs)-1]
+		hl := 8
+		if last.Flags&0x80 != 0 {
+			hl = 12
+		}
+		dl := len(last.Data)
+		if last.Group != nil {
+			dl = 0
+			for _, g := range last.Group {
+				dl += len(g.Bytes())
+			}
+		}
+		pad := (4 - (hl+dl)%4) % 4
+		body = body[:len(body)-pad]
 	}
 	b := make([]byte, 20+len(body))
 	b[0] = 1
